@@ -153,7 +153,7 @@ fn val_for(ty: Ty, idx: usize, rng_z: u64) -> VDesc {
     match ty {
         Ty::Fr => VDesc::Fr(p.fr_vals[idx % p.fr_vals.len()].clone()),
         Ty::Fq12 => VDesc::Fq12(p.fq12_vals[idx % p.fq12_vals.len()].clone()),
-        _ => VDesc::Pt { a: p.pt_scalars[idx % p.pt_scalars.len()].clone(), z: rng_z, neg: idx % 7 == 3 },
+        _ => VDesc::Pt { a: p.pt_scalars[idx % p.pt_scalars.len()].clone(), z: rng_z, neg: idx % 7 == 3, via: 0 },
     }
 }
 
@@ -165,7 +165,17 @@ fn sweep_values(ty: Ty, n: usize) -> Vec<VDesc> {
         Ty::Fq12 => vec![0, 2, 20, 1, 5, 15, 21, 22, 23, 24, 25, 26],
         _ => vec![0, 1, 12, 3, 2, 13, 14, 15, 16, 17, 18, 19],
     };
-    order.iter().take(n).map(|&i| val_for(ty, i, if ty == Ty::G1 || ty == Ty::G2 { (i as u64) * 77 } else { 0 })).collect()
+    let mut v: Vec<VDesc> = order.iter().take(n).map(|&i| val_for(ty, i, if ty == Ty::G1 || ty == Ty::G2 { (i as u64) * 77 } else { 0 })).collect();
+    if ty.is_point() && !v.is_empty() {
+        // the first point value is the identity as arithmetic produces it (P + (-P): a projective
+        // identity with left-over X and Y), not the canonical zero(); the canonical one follows later
+        let canonical = v[0].clone();
+        v[0] = VDesc::Pt { a: pools().pt_scalars[5].clone(), z: 0, neg: false, via: 1 };
+        if v.len() > 3 {
+            v[3] = canonical;
+        }
+    }
+    v
 }
 
 fn single(ty: Ty, c: bool, v: &VDesc, tag: &str) -> IoPlan {
@@ -492,6 +502,7 @@ pub fn gen_plan(seed: u64) -> IoPlan {
                 a: rng.pick(&p.pt_scalars).clone(),
                 z: if (ty == Ty::G1 || ty == Ty::G2) && rng.chance(2, 3) { 1 + rng.next() % 1000 } else { 0 },
                 neg: rng.chance(1, 4),
+                via: if rng.chance(1, 12) { 1 + (rng.next() % 2) as u8 } else { 0 },
             },
         };
         records.push(Rec { ty, c, v });
